@@ -114,6 +114,16 @@ pub fn record(seed: u64, tier: &str, out: &str) {
     cmpvals.push(third + f80::from(1.0));
     cmpvals.push(f80::from(1.0) + f80::from(1e-19)); // rounds to 1 + 2^-63
     cmpvals.push(-third);
+    // values no f64 can hold (only reachable as intermediate results): far below the f64 subnormals, far above
+    // f64::MAX, and neighbours of 1 that round to 1 in f64 -- abs / min / max / the relations must not go through f64
+    let (tiny, huge) = (f80::from(1e-300) * f80::from(1e-300), f80::from(1e300) * f80::from(1e300));
+    let sub4 = f80::from(5e-324) / f80::from(4.0);
+    let eps64 = f80::from(1.0) / f80::from(18446744073709551616.0); // 2^-64
+    for x in [tiny, -tiny, huge, -huge, sub4, -sub4, tiny * tiny, -(tiny * tiny), huge * f80::from(3.0), f80::from(-1e-300) * f80::from(1e-300),
+              f80::from(1.0) - eps64, -(f80::from(1.0) - eps64), f80::from(f64::MAX) + f80::from(f64::MAX) / f80::from(9007199254740992.0),
+              -(f80::from(f64::MIN_POSITIVE) / f80::from(3.0))] {
+        cmpvals.push(x);
+    }
     let step = if thorough { 1 } else { 2 };
     let special = cmpvals[..6].to_vec(); // 0, -0, 1, -1, 2, 0.5: always against everything
     for (i, x) in cmpvals.iter().enumerate() {
